@@ -1,8 +1,75 @@
 import Solvor.Common.Proto
 import Solvor.Graph.Model
-/-! Graph: line-protocol handler. One request line in, one reply line out. -/
-namespace Solvor.Graph
+/-! Graph: line-protocol handler (C14).
 
-def handle (line : String) : String := "unimplemented " ++ line
+request `["case", nodes, table, scc, topo, cond]`
+  nodes : node list (naturals, iteration order of the `nodes` iterable)
+  table : `[[v, [w, …]], …]` – the neighbour list of every vertex the neighbour function is
+          defined on (members of the node list and vertices outside it); other vertices have none
+  scc   : `null` or the component lists returned by the implementation
+  topo  : `null`, `[0]` (INFEASIBLE) or `[1, order]`
+  cond  : `null` or `[comps, cadj]` (`cadj[i]` = indices of the successors of component `i`)
+reply `[closed, mScc, mTopo|null, mCadj, certModel, sccV, topoV, condV]`
+  closed    : every neighbour of a node is in the node list
+  mScc/mTopo/mCadj : the mirrors `tarjan`, `kahn` (null = INFEASIBLE), `condEdges`
+  certModel : `[chkScc VB adj mScc, kahn verdict checked, chkCondense VB adj mScc mCadj,
+              chkCondOpen U nodes adj mScc mCadj]`
+  sccV      : `null` or `[A, B, open]` – `chkScc` on the implementation's components under reading
+              A (graph induced on the node list), B (graph explored from it) and the clauses
+              common to both
+  topoV     : `null` or `[A, B, open]` (`chkTopo`, or `cyclicB` when INFEASIBLE was returned)
+  condV     : `null` or `[A, B, open]`
+-/
+namespace Solvor.Graph
+open Solvor.Proto
+
+def parseTable (v : Val) : Option (List (Nat × List Nat)) := do
+  (← v.toArr?).mapM fun e =>
+    match e with
+    | Val.arr [k, l] => do pure ((← k.toNat?), (← l.toNats?))
+    | _ => none
+
+def tri (a b c : Bool) : Val := Val.arr [Val.bool a, Val.bool b, Val.bool c]
+
+def handle (line : String) : String :=
+  match request line with
+  | some ("case", [nodes, table, scc, topo, cond]) =>
+    match nodes.toNats?, parseTable table with
+    | some nodes, some tbl =>
+      let adj : Adj := fun v => ((tbl.find? fun p => p.1 == v).map (·.2)).getD []
+      let U := dedup (nodes ++ tbl.map (·.1) ++ tbl.flatMap (·.2))
+      let VB := reach adj U nodes
+      let aIn := adjIn nodes adj
+      let closed := closedB nodes adj
+      let mScc := tarjan U nodes adj
+      let mTopo := kahn nodes adj
+      let mCadj := condEdges nodes adj mScc
+      let certTopo := match mTopo with
+        | some o => chkTopo nodes adj o
+        | none => cyclicB nodes adj
+      let sccV := match scc.toNatss? with
+        | some cs => tri (chkScc nodes aIn cs) (chkScc VB adj cs) (chkSccOpen U nodes adj cs)
+        | none => Val.null
+      let topoV := match topo with
+        | Val.arr [Val.int 0] =>
+          tri (cyclicB nodes adj) (cyclicB VB adj) (cyclicB VB adj)
+        | Val.arr [Val.int 1, o] =>
+          match o.toNats? with
+          | some o => tri (chkTopo nodes adj o) (chkTopo VB adj o) (chkTopoOpen U nodes adj o)
+          | none => Val.null
+        | _ => Val.null
+      let condV := match cond with
+        | Val.arr [cs, ca] =>
+          match cs.toNatss?, ca.toNatss? with
+          | some cs, some ca =>
+            tri (chkCondense nodes aIn cs ca) (chkCondense VB adj cs ca) (chkCondOpen U nodes adj cs ca)
+          | _, _ => Val.null
+        | _ => Val.null
+      (Val.arr [Val.bool closed, Val.ofNatss mScc, Val.ofOpt Val.ofNats mTopo, Val.ofNatss mCadj,
+        Val.arr [Val.bool (chkScc VB adj mScc), Val.bool certTopo, Val.bool (chkCondense VB adj mScc mCadj),
+          Val.bool (chkCondOpen U nodes adj mScc mCadj)],
+        sccV, topoV, condV]).render
+    | _, _ => err "bad arguments"
+  | _ => err "bad request"
 
 end Solvor.Graph
